@@ -1031,7 +1031,39 @@ impl<'a> Gen<'a> {
 
 pub fn generate(rng: &mut Rng, hist: &mut Hist) -> Vec<Node> {
     let mut g = Gen { rng, sim: Sim::new(), fresh: 0, budget: 40, hist };
-    g.gen_items(0)
+    let mut nodes = g.gen_items(0);
+    if g.rng.chance(1, 10) {
+        // a last function with one use of a path that is declared somewhere but is not found from here (or nowhere):
+        // the source must be refused with "was not declared in this scope" — the negative side of the lookup
+        let ents: Vec<usize> = (0..g.sim.ents.len()).filter(|i| !matches!(g.sim.ents[*i].kind, EKind::Local | EKind::Param)).collect();
+        if !ents.is_empty() {
+            let id = ents[g.rng.below(ents.len() as u64) as usize];
+            let full = g.sim.ents[id].path.clone();
+            let k = match g.sim.ents[id].kind {
+                EKind::Gvar => UKind::V,
+                EKind::Func => UKind::F,
+                EKind::Struct => UKind::T,
+                EKind::Enum => UKind::Y,
+                _ => UKind::E,
+            };
+            let name = g.name_where(|s, n| s.can_fn(n));
+            g.sim.begin_fn(&name, "-");
+            let mut cands = Vec::new();
+            for j in 1..full.len() {
+                cands.push(Path { abs: g.rng.chance(1, 2), segs: full[j..].to_vec() });
+            }
+            let mut twisted = full.clone();
+            twisted.insert(0, g.rng.pick(&POOL).to_string());
+            cands.push(Path { abs: false, segs: twisted });
+            let missing: Vec<Path> = cands.into_iter().filter(|c| matches!(g.sim.find2(g.sim.cur, c).0, Ok(None))).collect();
+            if !missing.is_empty() {
+                let p = missing[g.rng.below(missing.len() as u64) as usize].clone();
+                g.hist.add("use:unresolved");
+                nodes.push(Node::Fn(name, "-".into(), vec![Node::Use(k, p)]));
+            }
+        }
+    }
+    nodes
 }
 
 // ------------------------------------------------------------------------------------------------ reading the emitted text
@@ -1540,6 +1572,10 @@ pub fn run_descriptor(desc: &str, out: &mut Out, hist: &mut Hist) {
                 // the simulation expected the front end to take it: compared with the model, which then says what every use finds
                 hist.add("names:source-rejected-unexpectedly");
                 out.case(&req, "g1:reject", &format!("ok (source refused: {})", one_line(&e.chars().take(160).collect::<String>())));
+            } else if sim.invalid.as_deref() == Some("a use finds nothing") && e.contains("was not declared in this scope") {
+                // predicted: compared with the model, whose lookup must find nothing either
+                hist.add("names:source-rejected-unresolved-use");
+                out.case(&req, "g1:reject", "ok (source refused: a use finds nothing)");
             } else {
                 hist.add("names:source-rejected");
                 out.case(&req, "g1:reject", &format!("SKIP:source not accepted ({})", sim.invalid.clone().unwrap_or_default()));
